@@ -1140,5 +1140,44 @@ prop(dict(
 ))
 
 
+def rand_g02(seed, tier, cases=None):
+    rng = random.Random(seed * 7919 + 102)
+    base = [c["bytes"] for c in (cases or []) if len(c.get("bytes", [])) >= 8]
+    out = []
+    for _ in range(3000 if tier == "quick" else 60000):
+        if rng.random() < 0.5 and base:
+            b = list(rng.choice(base))
+            for _k in range(rng.randint(1, 2)):
+                i = rng.randrange(len(b))
+                b[i] ^= 1 << rng.randrange(8)
+            cl = "rand_bitflip"
+        else:
+            b = rbytes(rng, rng.choice([0, 1, 2, 4, 5, 8, 9, 10, 11, 12, 16]))
+            if b and rng.random() < 0.8:
+                b[0] = 0x80 | (b[0] & 0x3F)
+            if len(b) >= 5 and rng.random() < 0.6:
+                b[1:4] = [0x49, 0x83, 0x42]   # sync code at the byte-aligned position of profiles 0-2 ... only when bits line up; mostly damage
+            cl = "rand_bytes"
+        out.append(dict(fam="G02", bytes=b, prev=rng.choice(base) if base and rng.random() < 0.5 else [], **{"class": cl}))
+    return out
+
+
+prop(dict(
+    id="G02", fam="G02",
+    mc=[("VP9HeaderMC.tla", "VP9HeaderMC.cfg", {})],
+    gen=[("VP9HeaderGen.tla", "VP9HeaderGen.cfg", {"thorough": {"Dims": "{0, 1, 255, 256, 1279, 32767, 32768, 65534, 65535}"}})],
+    rand=rand_g02,
+    trace=("VP9HeaderTrace.tla", "VP9HeaderTrace.cfg"),
+    shards={"quick": 4, "thorough": 14},
+    nontrivial=lambda c: len(c["bytes"]) >= 1,
+    class_of=lambda c: c["class"],
+    rule="GROWTH: VP9 uncompressed headers from the independent encoder of VP9Header.tla (all profiles, show-existing / non-key / key frames, bit depths, colour spaces incl. RGB, "
+         "subsampling, boundary frame sizes, both fill bits, trailing bytes), every byte-prefix, damaged marker / sync code, seeded random strings and bit-flips; each decoded by a fresh "
+         "codecs/vp9.Header and by one that has parsed a key frame before",
+    assumptions=COMMON_ASSUME + ["not one of the listed properties: findings are reported in DESIGN.md 9.7, never as a listed property's violation",
+                                 "reserved_zero bits are not judged (decoders ignore them); subsampling of an RGB stream in profiles 0/2 (not conformant) is not judged"],
+))
+
+
 for _id in ("C02", "C03", "C08", "C09", "C10", "C14"):
     PROPS[_id]["rule"] += CORPUS_RULE
